@@ -355,6 +355,13 @@ def execute(chk, ctx, it, p):
         t['simf'] = {'objects': [{'path': '@RUN@/input'}],
                      'faults': [{'obj': 0, 'op': 'read', 'k': k, 'kind': 'short', 'bytes': b} for k, b in p['short_reads']]}
     o = ctx.run(tool, t, prepare=prepare)
+    if o.klass[0] == 'hang':
+        # CPU time includes system time, and on a machine whose memory management is contended a 50 ms run has been seen
+        # to burn its 10 s: a hang must persist with six times the bound before it is believed
+        t2 = dict(t, cpu_limit_s=6 * chk.CPU_LIMIT)
+        o2 = ctx.run(tool, t2, prepare=prepare)
+        if o2.klass[0] != 'hang':
+            o = o2
     verdict, key = None, None
     kl = o.klass
     site = None
